@@ -142,8 +142,12 @@ inline std::string c_printf(bool plus, int precision, char conv, double value)
     fmt[e] = 0;
     std::vector<char> buf(4096);
     int n = snprintf(buf.data(), buf.size(), fmt, value);
+    if (n >= 0 && (size_t)n >= buf.size()) {  // very large precisions
+        buf.resize((size_t)n + 1);
+        n = snprintf(buf.data(), buf.size(), fmt, value);
+    }
     if (n < 0 || (size_t)n >= buf.size()) {
-        fprintf(stderr, "ref::c_printf: rendering does not fit the 4 KiB reference buffer (%s)\n", fmt);
+        fprintf(stderr, "ref::c_printf: snprintf failed (%s)\n", fmt);
         exit(2);
     }
     return std::string(buf.data(), (size_t)n);
